@@ -190,7 +190,7 @@ class DOMParser:
 
             if (
                 style is None
-                or style.index(prop) != 0
+                or not style.startswith(prop)
                 or (rule.context and not context.matches_context(rule.context))
                 or (
                     len(style) > len(prop)
@@ -526,7 +526,7 @@ class ParseContext:
         if get_node_type(dom_) == 3:
             self.add_text_node(dom_)
         elif get_node_type(dom_) == 1:
-            style = ";".join(dom_.get("style", [""]))
+            style = dom_.get("style") or ""
 
             if not style:
                 self.add_element(dom_)
